@@ -12,6 +12,9 @@ use std::panic::{catch_unwind, AssertUnwindSafe};
 
 use logos::{Lexer, Logos};
 
+#[macro_use]
+mod api;
+mod cb;
 mod defs;
 
 pub struct Req<'a> {
@@ -314,6 +317,28 @@ fn main() {
             match r {
                 Ok(b) => out.push_str(&b),
                 Err(_) => out.push_str("\"panic\":\"panic\""),
+            }
+            out.push('}');
+            writeln!(w, "{}", out).unwrap();
+            w.flush().unwrap();
+            continue;
+        }
+        if first == "S" {
+            // S <pair idx> <f|p> <hex> <script>
+            let pidx: usize = parts.next().unwrap().parse().unwrap();
+            let partial = parts.next().unwrap_or("f").contains('p');
+            let bytes = unhex(parts.next().unwrap_or(""));
+            let boxed: Box<[u8]> = bytes.into_boxed_slice();
+            let script = parts.next().unwrap_or("");
+            let r = catch_unwind(AssertUnwindSafe(|| {
+                let mut b = String::new();
+                let known = defs::dispatch_api(pidx, &boxed, partial, script, &mut b);
+                (known, b)
+            }));
+            match r {
+                Ok((true, b)) => out.push_str(&b),
+                Ok((false, _)) => out.push_str("\"unknown\":true"),
+                Err(_) => out.push_str("\"panic\":\"panic outside catch\""),
             }
             out.push('}');
             writeln!(w, "{}", out).unwrap();
